@@ -43,7 +43,8 @@ class Gen:
 
     def tag_val(self):
         if self.hard and self.r.random() < 0.5:
-            return self.r.choice(HARD_STRINGS + [None])
+            # the sentinel text as a tag *value* is C05's known finding, not a subject of the history families
+            return self.r.choice([x for x in HARD_STRINGS if x != "_none"] + [None])
         return self.r.choice(TAG_VALS)
 
     def key(self, pool):
@@ -258,6 +259,12 @@ class Gen:
         r = self.r
         n = r.choice([1, 1, 1, 2, 3, 0])
         pts = [self.point() for _ in range(n)]
+        if pts and r.random() < 0.12:
+            # some points carry no time: the database stamps them with the (pinned) insertion time
+            now = "now:" + str(T0 + r.choice([0, 2, 4, 9]))
+            for p in pts:
+                if r.random() < 0.6:
+                    p[1] = now
         if bad and pts:
             pts.insert(r.randrange(len(pts) + 1), "!")
         m = r.choice(["~", "~", hx(r.choice(self.meas + self.filter_extra))])
